@@ -25,7 +25,9 @@ open Eff
 
 /-- The regenerated table: every extracted path of every operation (normal or raising) leaves no
     cache of its class stale from any stale-free start, and every normally returning path leaves the
-    eager 2-D grid filled if it found it filled. -/
+    eager 2-D grid filled if it found it filled.
+    (Closed statement about the GENERATED table `Gen.effects` - the event paths extracted from the source tree the check was run
+    for - decided by evaluation; it says nothing about a tree other than the one the table was generated from.) -/
 theorem all_paths_ok : Gen.effects.all (fun s => s.ok) = true := by decide +kernel
 
 /-- the form asked for in DESIGN 4.6: all paths of all operations pass `pathOk` (on the class's caches) -/
